@@ -1284,6 +1284,7 @@ def _set_axis_copy():
             return None
         st = {"a": a_id, "axis": ref, "values": fresh_labels(rng, len(labs), labs), "out": out(w)}
         free = [n for n in NEWDIMS if n not in a.dims]
+        st["on_axis"] = rng.random() < 0.25
         if free and rng.random() < 0.3:
             st["name"] = rng.choice(free)
             if rng.random() < 0.5:
@@ -1293,7 +1294,12 @@ def _set_axis_copy():
     def run(w, s):
         kw = {"name": s["name"]} if s.get("name") else {}
         vals = V.label_array(s["values"]) if s.get("values") is not None else None
-        return w.arr(s["a"]).set_axis(vals, axis=s["axis"], inplace=False, **kw)
+        a = w.arr(s["a"])
+        if s.get("on_axis"):
+            # the same request on the Axis object itself: a new Axis comes back, the array keeps its own
+            a.axes[s["axis"]].set(vals, inplace=False, **kw)
+            return None
+        return a.set_axis(vals, axis=s["axis"], inplace=False, **kw)
     return gen, run
 
 
